@@ -408,6 +408,19 @@ def correspond(run):
         broken.append({"kind": "oracle", "name": "gr.getresults vs Pms.Gr.Spec",
                        "detail": f"{len(fail)} failures; first: {fail[0][1][1][:240]}",
                        "cases": [c for c, _ in fail[:20]], "failing": [(c, w) for c, w in fail[:40]]})
+    # scale stream: N ≈ 1 000 – 2 000 with coarse bins (per-particle, per-bin counts far above 127; ~10⁶ pairs per frame)
+    sfail = []
+    for c in [gen_scale_case(run.rng) for _ in range(2 if run.tier == "quick" else 10)]:
+        w = scale_check(c)
+        run.hist("stream", f"scale:K{c['K']}:T{c['T']}")
+        if w and w[0] == "skip":
+            continue
+        run.count(c, True)
+        if w:
+            sfail.append({"key": w[0], "what": w[1], "case": c})
+    if sfail:
+        broken.append({"kind": "oracle", "name": "gr.getresults vs the statement at scale", "detail": sfail[0]["what"][:300],
+                       "sample_failures": sfail})
     if run.tier != "quick":
         broken += sample_dumps(run)
     return broken
@@ -504,7 +517,7 @@ def search(run, broken):
     if need_more:
         pool += directed_cases(run.rng) + [gen_case(run.rng) for _ in range(150 if run.tier == "quick" else 1500)]
     for c in pool:
-        if "sample" in c:
+        if "sample" in c or "scale" in c:
             continue
         tried += 1
         why = failing(c)
@@ -529,9 +542,71 @@ def search(run, broken):
     return unexplained
 
 
+# ----------------------------------------------------------------------------- scale stream (labelled test, see harness/gen/scale.py)
+
+def gen_scale_case(rng):
+    from gen import scale
+    p = scale.gen_scale_params(rng, K=rng.choice([1, 2, 2, 3]))
+    p["T"] = rng.choice([1, 2])
+    return p
+
+
+def scale_check(c):
+    """the real gr class on T frames of N ≈ 1 000 – 2 000 particles against the numpy brute force of the statement;
+    returns (key, text), ("skip", why) or None"""
+    from gen import scale
+    from PyMatterSim.reader.reader_utils import SingleSnapshot, Snapshots
+    from PyMatterSim.static.gr import gr
+    N, d, K, T, delta = c["N"], c["d"], c["K"], c["T"], float(c["rdelta"])
+    frames = [scale.scale_arrays(dict(c, sseed=c["sseed"] + 7 * t)) for t in range(T)]
+    types, L = frames[0][1], frames[0][2]
+    maxbin = int(L.min() / 2.0 / delta)
+    V = float(np.prod(L))
+    cnt = {a: int((types == a).sum()) for a in range(1, K + 1)}
+    exp = {"r": [(k + 0.5) * delta for k in range(maxbin)]}
+    acc = {}
+    for pos, _, _ in frames:
+        tot, _, margin = scale.pair_hist(pos, L, delta, maxbin)
+        if margin < 1e-9:
+            return ("skip", "margin")
+        acc["gr"] = acc.get("gr", 0) + tot
+        if 1 < K <= 5:
+            for a in range(1, K + 1):
+                for b in range(a, K + 1):
+                    _, w, _ = scale.pair_hist(pos, L, delta, maxbin, (types == a).astype(float), (types == b).astype(float))
+                    acc[f"gr{a}{b}"] = acc.get(f"gr{a}{b}", 0) + w
+    for col, h in acc.items():
+        if col == "gr":
+            na = nb = N
+        else:
+            na, nb = cnt[int(col[2])], cnt[int(col[3])]
+        exp[col] = [V / (na * nb) * h[k] / T / scale.shell(d, k, delta) for k in range(maxbin)]
+    snaps = [SingleSnapshot(timestep=t, nparticle=N, particle_type=types.copy(), positions=pos.copy(), boxlength=L.copy(),
+                            boxbounds=np.column_stack((np.zeros(d), L)), realbounds=None, hmatrix=np.diag(L))
+             for t, (pos, _, _) in enumerate(frames)]
+    try:
+        df = gr(Snapshots(nsnapshots=T, snapshots=snaps), ppp=np.array([1] * d), rdelta=delta).getresults()
+    except Exception as e:
+        return (f"C03:scale:K{K}:raise", f"scale stream: real code raised {type(e).__name__}: {e} (N = {N})")
+    for col, ev in exp.items():
+        if col not in df.columns:
+            return (f"C03:scale:K{K}:columns", f"scale stream: column {col} missing from {list(df.columns)}")
+        rv = [float(x) for x in df[col].values]
+        if len(rv) != len(ev):
+            return (f"C03:scale:K{K}:bins", f"scale stream: column {col} has {len(rv)} rows, expected {len(ev)} bins")
+        for k, (a, b) in enumerate(zip(rv, ev)):
+            if not common.close(a, b, 1e-9):
+                return (f"C03:scale:K{K}:{col}", f"scale stream (N = {N}, K = {K}, T = {T}, rdelta {c['rdelta']}): {col}[bin {k}] returned {a!r} "
+                                                 f"but the normalised ordered-pair histogram of the statement gives {float(b)!r}")
+    return None
+
+
 def replay(run, rp):
     c = rp.get("case")
     if c is not None:
+        if "scale" in c:
+            w = scale_check(c)
+            return bool(w) and w[0] != "skip"
         if "sample" in c:
             w = sample_check(c)
             return bool(w) and w[0] != "skip"
